@@ -46,7 +46,7 @@ class ReloadWorld(systemcheck.SystemWorld):
         r.listener = None
         self.name = self.neighbor.name()
 
-    def do_reload(self, new: dict, fault: str, changed: bool) -> None:
+    def do_reload(self, new: dict, fault: str, changed: bool, also: str = 'none') -> None:
         from exabgp.reactor.loop import Reactor
 
         r = self.reactor
@@ -62,7 +62,15 @@ class ReloadWorld(systemcheck.SystemWorld):
         peer_nb = self.peer.neighbor
         if changed:
             self._fmt['hold'] = 30
+        keep = dict(self._fmt)
+        if also == 'families':
+            self._fmt['families'] = 'ipv4 unicast;'
+        if also == 'noarib':
+            self._fmt['extra'] = self._fmt['extra'] + ' adj-rib-out false;'
+            self._fmt['rr'] = 'disable'
         text = self.config_text(static_of(new, broken=(fault == 'syntax-in-this-neighbour')), OTHER_BAD if fault == 'syntax-in-other-neighbour' else OTHER_OK)
+        if also != 'none':
+            self._fmt = keep          # only the refused configuration carries the change
         self.conf._configurations = [text]
         restore = []
         if fault == 'file-vanished':
@@ -107,7 +115,7 @@ async def direct(w: ReloadWorld, row: dict) -> None:
         if row['up']:
             await systemcheck.direct(w, [{'do': 'quiet'}])
     w.absorb()
-    w.do_reload(new, row['fault'], row['changed'])
+    w.do_reload(new, row['fault'], row['changed'], row.get('also', 'none'))
     second = row.get('second', 'none')
     # the second reload: the good new configuration after a failed one, back to the old configuration after a successful one
     again = new if row['fault'] != 'none' else {'k1': row['old1'], w.second_key: row['old2']}
@@ -157,7 +165,7 @@ def run(tier: str) -> int:
     ck = Check('C17', tier, 'model_checking')
     ck.cov['rule'] = (
         'cases = rows (old configuration of two routes, new configuration, API-announced route, session up or down during the reload, session '
-        'parameter changed or not, fault: none / syntax error in a later neighbour section / in this neighbour / file vanished / parser exception) '
+        'parameter changed or not, fault: none / syntax error in a later neighbour section / in this neighbour / file vanished / parser exception; a refused configuration may also change the families or adj-rib-out of the running neighbour) '
         'enumerated by TLC (Gen_ExaReload); each is run on the real Configuration + Reactor.reload + Peer under a virtual clock against a remote '
         'speaker; TLC (Obs_ExaSystem) judges the peer table after the drain against new configuration + API routes (ReloadDelta) and, for a failed '
         'reload, that neighbours, Adj-RIB-Out and queue are unchanged and the API still works (ReloadAtomic); distinct = distinct rows; '
@@ -176,7 +184,7 @@ def run(tier: str) -> int:
         rnd.shuffle(rows)
         by = {}
         for r in rows:
-            by.setdefault((r['fault'], r['up'], r['changed'], r['noarib'], r['second']), []).append(r)
+            by.setdefault((r['fault'], r['up'], r['changed'], r['noarib'], r['second'], r.get('also', 'none'), r['api'] if r.get('also', 'none') != 'none' else ''), []).append(r)
         keep = [r for v in by.values() for r in v[:3]]
         rest = [r for r in rows if r not in keep]
         rows = keep + rest[: max(0, limit - len(keep))]
@@ -204,8 +212,8 @@ def run(tier: str) -> int:
         row = meta[b['tid']]
         for clause in b['clauses']:
             name = clause.replace('C11-S3', 'C17-after-reload').replace('C11-S5', 'C17-after-reload').replace('C11-S1', 'C17-after-reload').replace('C11-', 'C17-via-')
-            fp = {'clause': name, 'fault': row['fault'], 'up': row['up'], 'changed': row['changed'], 'second': row.get('second', 'none')}
-            ck.violation(fp, f'{name} ({b["e"]}): old={{k1:{row["old1"]},k2:{row["old2"]}}} new={{k1:{row["new1"]},k2:{row["new2"]}}} api={row["api"]} up={row["up"]} changed={row["changed"]} fault={row["fault"]} second={row.get("second")}', {'row': row, 'clause': clause})
+            fp = {'clause': name, 'fault': row['fault'], 'up': row['up'], 'changed': row['changed'], 'second': row.get('second', 'none'), 'also': row.get('also', 'none')}
+            ck.violation(fp, f'{name} ({b["e"]}): old={{k1:{row["old1"]},k2:{row["old2"]}}} new={{k1:{row["new1"]},k2:{row["new2"]}}} api={row["api"]} up={row["up"]} changed={row["changed"]} fault={row["fault"]} second={row.get("second")} also={row.get("also")}', {'row': row, 'clause': clause})
     return ck.finish()
 
 
